@@ -18,8 +18,10 @@
 package main
 
 import (
+	"crypto/sha256"
 	"fmt"
 	"runtime"
+	"runtime/debug"
 	"sort"
 	"strings"
 	"sync"
@@ -396,9 +398,49 @@ func (r *realDB) scans(probe []string) string {
 
 // ---------------------------------------------------------------- driver
 
-type state struct {
-	m    *model
-	path []string
+type cstate struct {
+	evs string
+	h   [16]byte
+}
+
+// lock-free counters (16 workers): handed to ev at the end
+var (
+	classCnt sync.Map // name -> *atomic.Int64
+	evalCnt  atomic.Int64
+	memStop  atomic.Bool
+)
+
+func class(name string) {
+	v, ok := classCnt.Load(name)
+	if !ok {
+		v, _ = classCnt.LoadOrStore(name, new(atomic.Int64))
+	}
+	v.(*atomic.Int64).Add(1)
+}
+
+func flushCounters() {
+	counts := map[string]int64{}
+	classCnt.Range(func(k, v any) bool {
+		counts[k.(string)] = v.(*atomic.Int64).Load()
+		r.Class(k.(string))
+		return true
+	})
+	r.Note("class_counts", counts)
+	r.Evals(int(evalCnt.Load()))
+}
+
+func memWatch(limit uint64) {
+	debug.SetMemoryLimit(int64(limit * 3 / 4))
+	go func() {
+		var ms runtime.MemStats
+		for {
+			time.Sleep(3 * time.Second)
+			runtime.ReadMemStats(&ms)
+			if ms.Sys-ms.HeapReleased > limit {
+				memStop.Store(true)
+			}
+		}
+	}()
 }
 
 var r *ev.Run
@@ -433,7 +475,7 @@ func guard(what string, path any, f func()) bool {
 	inflight.Store(id, [2]any{what, path})
 	defer func() { inflight.Delete(id); progress.Add(1) }()
 	if rec, p := ev.Guard(f); p {
-		r.Class("panic")
+		class("panic")
 		r.Violation("memdb:"+what+":panic", map[string]any{"ops": opNames(path), "panic": fmt.Sprint(rec)})
 		return false
 	}
@@ -473,32 +515,32 @@ func classify(o op, m *model, before *model, obs string) {
 		old, had := before.m[o.key]
 		switch {
 		case !had:
-			r.Class("insert")
+			class("insert")
 		case old == "" && o.val != "":
-			r.Class("overwrite_after_delete")
+			class("overwrite_after_delete")
 		case old != "" && o.val == "":
-			r.Class("delete_existing_value")
+			class("delete_existing_value")
 		default:
-			r.Class("overwrite")
+			class("overwrite")
 		}
 	case "del":
 		if _, had := before.m[o.key]; had {
-			r.Class("delete_existing")
+			class("delete_existing")
 		} else {
-			r.Class("delete_unknown")
+			class("delete_unknown")
 		}
 	case "reset":
 		if len(before.m) > 0 {
-			r.Class("reset_nonempty")
+			class("reset_nonempty")
 		}
 	case "first", "last", "next", "prev", "seek":
 		if strings.HasPrefix(obs, "true") {
-			r.Class("iter_valid")
+			class("iter_valid")
 			if m.m[m.pos] == "" {
-				r.Class("iter_on_tombstone")
+				class("iter_on_tombstone")
 			}
 		} else {
-			r.Class("iter_exhausted")
+			class("iter_exhausted")
 		}
 	}
 }
@@ -506,6 +548,12 @@ func classify(o op, m *model, before *model, obs string) {
 func main() {
 	r = ev.Start("C09", "model_checking")
 	watchdog()
+	// resource bounds: thorough <= 8 workers / 8 GiB, quick all cores / 4 GiB
+	workers := runtime.NumCPU()
+	if r.Thorough() && workers > 8 {
+		workers = 8
+	}
+	memWatch(uint64(r.QT(4, 8)) << 30)
 	keys := []string{"", "a", "a\x00", "ab", "b"}
 	if r.Thorough() {
 		keys = append(keys, "aa")
@@ -538,21 +586,52 @@ func main() {
 	}
 
 	// ---------------- phase 1: BFS with abstraction (model contents, iterator)
-	step := func(s state, e string) (state, bool) {
+	// A BFS node is compact: one byte per event of its representative path + 16-byte hash of the abstract state;
+	// the model is re-derived by replaying the path (bounded memory: no live objects / dumps per frontier node).
+	var evName []string
+	evIdx := map[string]int{}
+	for _, l := range [][]string{writeEv, {resetEv}, newIterEv, iterEv} {
+		for _, e := range l {
+			evIdx[e] = len(evName)
+			evName = append(evName, e)
+		}
+	}
+	menuClosed := append(append(append([]string{}, writeEv...), resetEv), newIterEv...)
+	menuOpen := append(append([]string{}, menuClosed...), iterEv...)
+	rebuild := func(s cstate) (*model, []string) {
+		m := newModel()
+		path := make([]string, len(s.evs))
+		for i := 0; i < len(s.evs); i++ {
+			path[i] = evName[s.evs[i]]
+			m.do(opTab[path[i]])
+		}
+		return m, path
+	}
+	hash := func(m *model) (h [16]byte) {
+		x := sha256.Sum256([]byte(m.key()))
+		copy(h[:], x[:])
+		return
+	}
+	var transitions atomic.Int64
+	known := map[[16]byte]struct{}{} // states of earlier levels; written between levels only (Inv), read by the workers
+	step := func(s cstate, e string) (cstate, bool) {
 		o := opTab[e]
-		path := append(append(make([]string, 0, len(s.path)+1), s.path...), e)
-		nm := s.m.clone()
+		pm, ppath := rebuild(s)
+		path := append(ppath, e)
+		nm := pm.clone()
 		want := nm.do(o)
+		next := cstate{evs: s.evs + string([]byte{byte(evIdx[e])}), h: hash(nm)}
+		transitions.Add(1)
 		rd := newReal()
 		var got, gotB string
 		ok := guard(o.kind, path, func() {
-			for _, pe := range s.path {
+			for _, pe := range ppath {
 				rd.do(opTab[pe])
 			}
 			got = rd.do(o)
 			gotB = rd.battery(probe)
 		})
-		r.Eval()
+		evalCnt.Add(1)
 		if ok {
 			if got != want {
 				violate(o.kind, path, got, want)
@@ -560,43 +639,49 @@ func main() {
 			if wb := nm.battery(probe); gotB != wb {
 				violate("battery-after-"+o.kind, path, gotB, wb)
 			}
-			classify(o, nm, s.m, want)
-			if s.m.r >= 0 && s.m.pk == pAt && (o.kind == "put" || o.kind == "del") {
-				r.Class("write_under_live_iterator")
+			classify(o, nm, pm, want)
+			if pm.r >= 0 && pm.pk == pAt && (o.kind == "put" || o.kind == "del") {
+				class("write_under_live_iterator")
 			}
 		}
 		if rd.it != nil {
 			rd.it.Release()
 		}
-		return state{nm, path}, true
+		// executed and checked; a successor already known from an earlier level is not handed to mc (ok=false) so that
+		// mc does not retain it until the level merge. Transitions are counted here.
+		_, old := known[next.h]
+		return next, !old
 	}
-	depth1 := r.QT(0, 0) // 0 = run to the fixpoint of the abstract state space
-	st := mc.BFS(mc.Config[state]{
-		Init: []state{{newModel(), nil}},
-		Events: func(s state, d int) []string {
-			evs := append([]string{}, writeEv...)
-			evs = append(evs, resetEv)
-			evs = append(evs, newIterEv...)
-			if s.m.r >= 0 {
-				evs = append(evs, iterEv...)
+	depth1 := 0 // 0 = run to the fixpoint of the abstract state space
+	st := mc.BFS(mc.Config[cstate]{
+		Init: []cstate{{h: hash(newModel())}},
+		Events: func(s cstate, d int) []string {
+			if m, _ := rebuild(s); m.r >= 0 {
+				return menuOpen
 			}
-			return evs
+			return menuClosed
 		},
 		Step:     step,
-		Key:      func(s state) string { return s.m.key() },
+		Key:      func(s cstate) string { return string(s.h[:]) },
 		MaxDepth: depth1,
-		Workers:  runtime.NumCPU(),
-		Stop:     r.Expired,
-		Inv: func(s state, path []string) {
+		Workers:  workers,
+		Stop:     func() bool { return r.Expired() || memStop.Load() },
+		Inv: func(s cstate, path []string) {
+			known[s.h] = struct{}{}
 			if len(path) <= 3 {
-				r.Sample(map[string]any{"ops": path, "state": s.m.key()})
+				m, _ := rebuild(s)
+				r.Sample(map[string]any{"ops": path, "state": m.key()})
 			}
-			r.Case("state:" + s.m.key())
 		},
 	})
 	if st.Truncated {
-		r.Capped(fmt.Sprintf("phase1 BFS cut by deadline at depth %d", st.MaxDepth))
+		if memStop.Load() {
+			r.Capped(fmt.Sprintf("phase1 BFS stopped by the memory bound at depth %d", st.MaxDepth))
+		} else {
+			r.Capped(fmt.Sprintf("phase1 BFS cut by deadline at depth %d", st.MaxDepth))
+		}
 	}
+	st.Transitions = int(transitions.Load())
 
 	// ---------------- phase 2: every write history (no dedup), full read battery at every prefix
 	histDepth := r.QT(4, 5)
@@ -610,7 +695,7 @@ func main() {
 	var histNodes, histCapped int64
 	var mu sync.Mutex
 	var wg sync.WaitGroup
-	sem := make(chan struct{}, runtime.NumCPU())
+	sem := make(chan struct{}, workers)
 	var rec func(path []op, m *model, cnt *int64)
 	rec = func(path []op, m *model, cnt *int64) {
 		// replay on a fresh instance, observe everything
@@ -640,11 +725,11 @@ func main() {
 				v, ok := m.m[k]
 				switch {
 				case !ok:
-					r.Class("get_unknown")
+					class("get_unknown")
 				case v == "":
-					r.Class("get_tombstone")
+					class("get_tombstone")
 				default:
-					r.Class("get_value")
+					class("get_value")
 				}
 			}
 		}
@@ -687,7 +772,7 @@ func main() {
 		}
 		wg.Wait()
 	}
-	r.Evals(int(histNodes))
+	evalCnt.Add(histNodes)
 	if histCapped > 0 {
 		r.Capped("phase2 history sweep cut by deadline")
 	}
@@ -728,7 +813,7 @@ func main() {
 				if ws := m.scans(wprobe); gs != ws {
 					violate("wide-scan", names, gs, ws)
 				}
-				r.Eval()
+				evalCnt.Add(1)
 				tall++
 			}
 			apply := func(o op) {
@@ -765,7 +850,10 @@ func main() {
 		"per_depth": st.PerDepth, "fixpoint": !st.Truncated && !st.DepthCapped, "events_per_state_max": len(writeEv) + 1 + len(newIterEv) + len(iterEv)})
 	r.Note("phase2", map[string]any{"write_ops": len(hops), "depth": histDepth, "histories_checked": histNodes})
 	r.Note("phase3", map[string]any{"keys": n, "orders": (n - 1) * n, "checkpoints": tall})
+	r.Note("resource_bounds", map[string]any{"workers": workers, "mem_limit_gib": r.QT(4, 8)})
+	flushCounters()
 	r.Finish(map[string]any{
+		"distinct_nontrivial": st.States,
 		"rule":     "real MemDB == ordered map with tombstones: op return values, Get/Find/Len/Size/ForEach after every op, iterator First/Last/Seek/Next/Prev under 6 ranges incl. interleaved writes",
 		"keys":     fmt.Sprintf("%q", keys),
 		"values":   []string{"nil", "\"\"", "x", "yy"},
